@@ -284,7 +284,8 @@ impl<'v> StarlarkValue<'v> for StarlarkStr {
             }
         } else {
             let len_chars = fast_string::len(self);
-            let ind = CharIndex((-i) as usize); // Index from the end, minimum of 1
+            // Index from the end, minimum of 1 (`unsigned_abs`: `-i` overflows for `i32::MIN`)
+            let ind = CharIndex(i.unsigned_abs() as usize);
             if ind > len_chars {
                 Err(ValueError::IndexOutOfBound(i).into())
             } else if len_chars.0 == self.len() {
